@@ -1,9 +1,12 @@
 #!/venv/bin/python
 """Re-run all checks against every kept refactoring; print alarms."""
 import concurrent.futures, glob, json, os, subprocess, sys
+sys.path.insert(0, os.path.dirname(os.path.abspath(__file__)))
+from scratch import scratch
 def sh(c): return subprocess.run(c, shell=True, capture_output=True, text=True)
-def run(p):
-  r = subprocess.run(['/verif/check', p, '--no-write'], capture_output=True, text=True)
+def run(a):
+  p, wt = a
+  r = subprocess.run(['/verif/check', p, '--no-write', '--repo', wt], capture_output=True, text=True)
   rules = sorted({l.split('rule=')[1].split()[0] for l in r.stdout.splitlines() if 'rule=' in l})
   err = [l.strip()[:110] for l in r.stdout.splitlines() if 'ANALYSIS-ERROR' in l][:1]
   return p, r.returncode, rules, err
@@ -12,13 +15,10 @@ tot = bad = 0
 for d in sorted(glob.glob('/verif/refactors/C*')):
   rid = os.path.basename(d)
   if only and not any(rid.startswith(o) for o in only): continue
-  assert sh('git -C /repo status --porcelain --untracked-files=no').stdout.strip() == ''
-  if sh('git -C /repo apply %s/patch.diff' % d).returncode: print(rid, 'APPLY-FAIL'); continue
-  try:
+  with scratch(d + '/patch.diff') as (wt, applied):
+    if not applied: print(rid, 'APPLY-FAIL'); continue
     with concurrent.futures.ThreadPoolExecutor(16) as ex:
-      res = {p: (c, r, e) for p, c, r, e in ex.map(run, ['C%02d' % i for i in range(1, 21)]) if c != 0}
-  finally:
-    sh('git -C /repo checkout -- .')
+      res = {p: (c, r, e) for p, c, r, e in ex.map(run, [('C%02d' % i, wt) for i in range(1, 21)]) if c != 0}
   tot += 1; bad += bool(res)
   meta = json.load(open(d + '/meta.json')); meta['alarms_now'] = {p: {'exit': c, 'rules': r, 'err': e} for p, (c, r, e) in res.items()}
   json.dump(meta, open(d + '/meta.json', 'w'), indent=1)
